@@ -1,12 +1,13 @@
 SPECIFICATION Spec
 CONSTANTS
- MaxP = 90
- MaxQ = 45
- MaxK = 10
+ MaxP = 47
+ MaxQ = 23
+ MaxK = 7
  Margin = 4
- Variants <- V_pqgh
- NaiveMaxP = 17
+ Variants <- N_com
+ NaiveMaxP = 0
  Mode = "nbr"
  CheckArith = FALSE
+ SortedBases = TRUE
 INVARIANTS BlockIsDefinition Sound Complete Shape Elements Emit
 CHECK_DEADLOCK FALSE
